@@ -112,6 +112,14 @@ package loading
 //@   ensures [derived_fields] err == nil ==> (forall i int :: {pkg.Targets[i]} 0 <= i && i < len(pkg.Targets) ==> enrichedDerived(r.Targets[mkLabel(KEY(), pkg.Targets[i].Name)], pkg.Targets[i], pkg))
 //@   ensures [platforms_own_or_package_default] err == nil ==> (forall i int :: {pkg.Targets[i]} 0 <= i && i < len(pkg.Targets) ==> enrichedPlatforms(r.Targets[mkLabel(KEY(), pkg.Targets[i].Name)], pkg.Targets[i], pkg))
 //@   ensures [duplicate_names_rejected] err == nil ==> (forall i int, j int :: {pkg.Targets[i], pkg.Targets[j]} 0 <= i && i < j && j < len(pkg.Targets) ==> pkg.Targets[i].Name != pkg.Targets[j].Name)
+// aliases get the same normalised package as targets (the root package is "", also when the package declares no target),
+// and a relative actual label is resolved in that package
+//@   define AKEY(i int) label.TargetLabel = mkLabel(KEY(), pkg.Aliases[i].Name)
+//@   ensures [every_alias_registered] err == nil ==> r.Aliases != nil && (forall i int :: {pkg.Aliases[i]} 0 <= i && i < len(pkg.Aliases) ==>
+//@        has(r.Aliases, AKEY(i)) && r.Aliases[AKEY(i)] != nil && r.Aliases[AKEY(i)].Label.Package == KEY() && r.Aliases[AKEY(i)].Label.Name == pkg.Aliases[i].Name &&
+//@        r.Aliases[AKEY(i)].SourceFilePath == pkg.SourceFilePath &&
+//@        (hasPrefix(pkg.Aliases[i].Actual, ":") ==> r.Aliases[AKEY(i)].Actual.Package == KEY() && r.Aliases[AKEY(i)].Actual.Name == sub(pkg.Aliases[i].Actual, 1, len(pkg.Aliases[i].Actual))))
+//@   ensures [package_path_normalised] err == nil && (len(pkg.Targets) > 0 || len(pkg.Aliases) > 0) ==> r.Path == KEY()
 //@ loop #1
 //@   invariant [key] packagePath == ite(rangeindex >= 0, KEY(), old(packagePath)) && targets != nil
 //@   invariant [registered_so_far] forall i int :: {pkg.Targets[i]} 0 <= i && i <= rangeindex ==>
@@ -130,7 +138,11 @@ package loading
 //@   invariant [derived] forall i int :: {pkg.Targets[i]} 0 <= i && i < len(pkg.Targets) ==> enrichedDerived(targets[mkLabel(KEY(), pkg.Targets[i].Name)], pkg.Targets[i], pkg)
 //@   invariant [platforms] forall i int :: {pkg.Targets[i]} 0 <= i && i < len(pkg.Targets) ==> enrichedPlatforms(targets[mkLabel(KEY(), pkg.Targets[i].Name)], pkg.Targets[i], pkg)
 //@   invariant [names_distinct] forall i int, j int :: {pkg.Targets[i], pkg.Targets[j]} 0 <= i && i < j && j < len(pkg.Targets) ==> pkg.Targets[i].Name != pkg.Targets[j].Name
-//@   invariant [key] packagePath == KEY() || (packagePath == old(packagePath) && len(pkg.Targets) == 0)
+//@   invariant [key] packagePath == KEY() || (packagePath == old(packagePath) && len(pkg.Targets) == 0 && rangeindex < 0)
+//@   invariant [aliases_so_far] aliases != nil && (forall i int :: {pkg.Aliases[i]} 0 <= i && i <= rangeindex ==>
+//@        has(aliases, AKEY(i)) && aliases[AKEY(i)] != nil && allocated(aliases[AKEY(i)]) && aliases[AKEY(i)].Label.Package == KEY() && aliases[AKEY(i)].Label.Name == pkg.Aliases[i].Name &&
+//@        aliases[AKEY(i)].SourceFilePath == pkg.SourceFilePath &&
+//@        (hasPrefix(pkg.Aliases[i].Actual, ":") ==> aliases[AKEY(i)].Actual.Package == KEY() && aliases[AKEY(i)].Actual.Name == sub(pkg.Aliases[i].Actual, 1, len(pkg.Aliases[i].Actual))))
 
 // C16: "packages merged under a mutex" - the loaded graph must not depend on the worker count. Each worker goroutine of
 // LoadPackages may add packages under loadedMutex, but a package stored under a path is never replaced: whatever a
